@@ -852,6 +852,13 @@ def run_render(item, rep):
             sig = {'part': 'render', 'stack': stack, 'what': 'redirect'}
             where = 'render stack=%s %s("/new/place", headers={"X-R": "1"})' % (stack, case[1])
             ok = judge_status(rep, res, code, [('Location', '/new/place'), ('X-R', '1')], None, sig, rec, where)
+            # the same class raised again and again in one process, without explicit headers and with
+            # different targets: each response carries ITS OWN Location (no state shared between instances)
+            for loc in ('/first', '/second', '/first'):
+                res, calls, fired = request(app_for(True, False), stack, cls(loc))
+                where2 = 'render stack=%s %s(%r) raised after earlier %s instances' % (stack, case[1], loc, case[1])
+                ok = judge_status(rep, res, code, [('Location', loc)], None, dict(sig, what='redirect-repeated'), rec, where2) and ok
+                rep.trans()
             rep.outcome('render:redirect:%s' % ('ok' if ok else 'DISAGREE'))
             rep.nt(('render', stack) + tuple(case))
         elif kind == 'other':
